@@ -12,28 +12,40 @@ _Bool nondet_bool(void);
 /* ASSUMED: element type = plain value + lifetime bookkeeping; constructors do not fail */
 #define TRK_IN_LIFETIME(p, what) __CPROVER_assert((p)->live && (p)->self == (p), what)
 #define TRK_RAW(p, what) __CPROVER_assert(!(p)->live, what)
+/* units whose harnesses own whole containers (FRGV_LIVE_COUNT) also keep a ghost count of live objects: storage released with live
+ * objects in it (a skipped destructor) shows as a non-zero count when the owner is gone. Contract units do not (frame clauses). */
+#ifdef FRGV_LIVE_COUNT
+long frgv_live_objects;
+#  define TRK_BORN() (frgv_live_objects++)
+#  define TRK_DIED() (frgv_live_objects--)
+#  define FRGV_NONE_LIVE() __CPROVER_assert(frgv_live_objects == 0, "lifetime: every constructed element has been destroyed once its owner is gone (no skipped destructor)")
+#else
+#  define TRK_BORN() ((void)0)
+#  define TRK_DIED() ((void)0)
+#  define FRGV_NONE_LIVE() ((void)0)
+#endif
 
 void frgv_tracked_ctor_default(struct frgv_tracked *this)
 {
 	TRK_RAW(this, "lifetime: object constructed over a live object");
-	this->v = 0; this->live = 1; this->self = this;
+	this->v = 0; this->live = 1; this->self = this; TRK_BORN();
 }
 void frgv_tracked_ctor(struct frgv_tracked *this, int v)
 {
 	TRK_RAW(this, "lifetime: object constructed over a live object");
-	this->v = v; this->live = 1; this->self = this;
+	this->v = v; this->live = 1; this->self = this; TRK_BORN();
 }
 void frgv_tracked_ctor_copy(struct frgv_tracked *this, struct frgv_tracked *o)
 {
 	TRK_IN_LIFETIME(o, "lifetime: copy-constructed from an object outside its lifetime");
 	TRK_RAW(this, "lifetime: object constructed over a live object");
-	this->v = o->v; this->live = 1; this->self = this;
+	this->v = o->v; this->live = 1; this->self = this; TRK_BORN();
 }
 void frgv_tracked_ctor_move(struct frgv_tracked *this, struct frgv_tracked *o)
 {
 	TRK_IN_LIFETIME(o, "lifetime: move-constructed from an object outside its lifetime");
 	TRK_RAW(this, "lifetime: object constructed over a live object");
-	this->v = o->v; this->live = 1; this->self = this;
+	this->v = o->v; this->live = 1; this->self = this; TRK_BORN();
 #ifndef FRGV_MOVE_KEEPS_VALUE
 	o->v = nondet_int();         /* moved-from: valid but unspecified */
 #endif
@@ -41,7 +53,7 @@ void frgv_tracked_ctor_move(struct frgv_tracked *this, struct frgv_tracked *o)
 void frgv_tracked_dtor(struct frgv_tracked *this)
 {
 	TRK_IN_LIFETIME(this, "lifetime: destructor on an object outside its lifetime (never constructed, relocated bytewise, or destroyed twice)");
-	this->live = 0;
+	this->live = 0; TRK_DIED();
 }
 struct frgv_tracked *frgv_tracked_assign_copy(struct frgv_tracked *this, struct frgv_tracked *o)
 {
